@@ -121,7 +121,8 @@ def _san_key(stderr_text):
             fn = fn.replace("[abi:cxx11]", "")
             break
     if fn is None:
-        m = re.search(r"(/repo/(?:src|include)/[\w/.]+):(\d+)", stderr_text)
+        m = re.search(r"(%s/(?:src|include)/[\w/.]+):(\d+)" % re.escape(vbuild.REPO), stderr_text) or \
+            re.search(r"(/(?:src|include/GeographicLib)/[\w.]+):(\d+)", stderr_text)
         if m:
             fn = os.path.basename(m.group(1))
     return kind + "@" + (fn or "unknown-frame")
@@ -133,6 +134,7 @@ def run_harness(res, spec_run, tier, seed, workdir, label=None):
     flavour = spec_run["flavour"]
     label = label or (os.path.splitext(os.path.basename(spec_run["harness"]))[0] + "." + flavour)
     t0 = time.time()
+    cpu0 = sum(os.times()[2:4])
     exe = vbuild.harness(spec_run["harness"], flavour, spec_run.get("cxxflags", ()), spec_run.get("ldflags", ()))
     tb = time.time() - t0
     shards = spec_run.get("shards", NCPU)
@@ -235,7 +237,8 @@ def run_harness(res, spec_run, tier, seed, workdir, label=None):
                 for k, n in r.get("violkeys", {}).items():
                     res.violcounts[k] = max(res.violcounts.get(k, 0), n)
     summary = dict(run=label, flavour=flavour, shards=shards, scale=scale, build_s=round(tb, 1),
-                   wall_s=round(time.time() - t0, 1), aborted_processes=crashed, stat_records=nstat)
+                   wall_s=round(time.time() - t0, 1), child_cpu_s=round(sum(os.times()[2:4]) - cpu0, 1),
+                   aborted_processes=crashed, stat_records=nstat)
     res.runs.append(summary)
     log("[%s] %s: %d shards, %.0fs (build %.0fs), aborts=%d" % (res.pid, label, shards, time.time() - t0, tb, crashed))
     return wd
@@ -281,7 +284,7 @@ def finish(res, spec, t0, workdir):
         bad.append(v)
     for k, n in seen_known.items():
         print("KNOWN-FINDING: property=%s %s [key=%s, seen %d×]" % (pid, kmap[k]["what"], k, res.violcounts.get(k, n)))
-    nprinted = 0
+    perkey = {}
     for v in bad:
         h = hashlib.sha1(json.dumps([v["key"], v.get("section"), v.get("idx"), v.get("seed"), v.get("run")],
                                     sort_keys=True).encode()).hexdigest()[:16]
@@ -291,8 +294,8 @@ def finish(res, spec, t0, workdir):
         v2["tier"] = res.tier
         with open(path, "w") as f:
             json.dump(v2, f, indent=1, default=str)
-        nprinted += 1
-        if nprinted <= 60:
+        perkey[v["key"]] = perkey.get(v["key"], 0) + 1
+        if perkey[v["key"]] <= 2 and len(perkey) <= 400:      # at most 2 witnesses per key on stdout; all are in replays/
             print("VIOLATION property=%s replay=%s key=%s" % (pid, path, v["key"]))
     for h in res.herrs[:10]:
         log("HARNESS-ERROR:", json.dumps(h)[:400])
